@@ -361,6 +361,14 @@ Definition harness_runs_body (t : test) : bool :=
 Definition gen_current (t : test) : harness :=
   {| h_marked := if harness_runs_body t then [t] else []; h_filter := None |}.
 
+(* emit_function decides per DECLARATION: every function of the file whose name is the selected name
+   and that libtest accepts gets #[test].  [gen_current] is this under the hypothesis that function
+   names are unique in the file (C16_emitter_unique_names); with a duplicated name the harness for
+   one declaration also runs the other (and rustc rejects the project: two `fn` items of one name) *)
+Definition gen_emit (file_tests : test -> list test) (t : test) : harness :=
+  {| h_marked := List.filter (fun u => str_eqb (t_name u) (t_name t) && harness_runs_body u) (file_tests t);
+     h_filter := None |}.
+
 (* another design (NOT the current tree; used for the refutation and for the --exact theorem): every
    libtest-compatible test function of the file is marked and the runner selects by name *)
 Definition gen_all_marked (exact : bool) (file_tests : test -> list test) (t : test) : harness :=
